@@ -251,13 +251,19 @@ func checkC23(env *kernel.Env) {
 	sessions := []*Sess{w.NewSession(), w.NewSession()}
 	s1 := sessions[0]
 	s1.MustExec("CREATE TABLE t (id INT PRIMARY KEY, a INT NOT NULL, b INT NOT NULL)")
-	s1.MustExec("CREATE TABLE lg (seq INT AUTO_INCREMENT PRIMARY KEY, trig VARCHAR(16), rid INT, olda INT, newa INT, newb INT)")
+	s1.MustExec("CREATE TABLE lg (seq INT AUTO_INCREMENT PRIMARY KEY, trig VARCHAR(16), rid INT, olda INT, newa INT, newb INT, chk INT)")
 	// second level: in half of the runs the audit table has a trigger of its own,
 	// so every audit row written by a trigger of t must fire it (nested triggers)
 	s1.MustExec("CREATE TABLE lg2 (seq INT AUTO_INCREMENT PRIMARY KEY, trig VARCHAR(16), rid INT)")
-	nested := T.Bool(1, 2)
-	if nested {
+	nestedKind := T.Draw(3) // 0 none, 1 AFTER INSERT, 2 BEFORE INSERT that also assigns to the audit row
+	nested := nestedKind > 0
+	switch nestedKind {
+	case 1:
 		s1.MustExec("CREATE TRIGGER lgtr AFTER INSERT ON lg FOR EACH ROW INSERT INTO lg2 (trig, rid) VALUES (NEW.trig, NEW.rid)")
+	case 2:
+		// the inner trigger must see the audit row the outer trigger built (not the outer
+		// statement's row) and its assignment must reach the stored audit row
+		s1.MustExec("CREATE TRIGGER lgtr BEFORE INSERT ON lg FOR EACH ROW BEGIN SET NEW.chk = NEW.rid * 2 + 1; INSERT INTO lg2 (trig, rid) VALUES (NEW.trig, NEW.rid); END")
 	}
 	lastSeq2 := int64(0)
 	readLog2 := func(s *Sess) []string {
@@ -433,9 +439,21 @@ func checkC23(env *kernel.Env) {
 	}
 	lastSeq := int64(0)
 	readLog := func(s *Sess) ([]trigLog, string) {
-		r := s.Exec(fmt.Sprintf("SELECT seq, trig, rid, olda, newa, newb FROM lg WHERE seq > %d ORDER BY seq", lastSeq))
+		r := s.Exec(fmt.Sprintf("SELECT seq, trig, rid, olda, newa, newb, chk FROM lg WHERE seq > %d ORDER BY seq", lastSeq))
 		if r.Err != nil {
 			return nil, "ERROR " + ErrClass(r.Err)
+		}
+		for _, row := range r.Rows {
+			var rid int64
+			fmt.Sscan(FormatVal(row[2]), &rid)
+			wantChk := "NULL"
+			if nestedKind == 2 {
+				wantChk = fmt.Sprint(rid*2 + 1)
+			}
+			if got := FormatVal(row[6]); got != wantChk {
+				env.Fail("nested-trigger-sees-its-row", "nested-before-trigger-wrong-row", "audit row %s (written by trigger %s for row %d) has chk = %s; the BEFORE INSERT trigger of the audit table sets it to rid * 2 + 1 = %s", FormatVal(row[0]), FormatVal(row[1]), rid, got, wantChk)
+				return nil, "ERROR chk"
+			}
 		}
 		var out []trigLog
 		for _, row := range r.Rows {
